@@ -443,7 +443,7 @@ func (g *genData) genCond(t *rapid.T, o genOpts) {
 	case "andor":
 		root = g.genTree(t, 3, cmpOpsNoNeq, o, 85)
 	default: // full
-		g.wantIn = rapid.IntRange(0, 49).Draw(t, "in") == 0
+		g.wantIn = rapid.IntRange(0, 199).Draw(t, "in") == 0
 		root = g.genTree(t, 3, cmpOps, o, 80)
 		g.wantIn = false
 	}
